@@ -462,6 +462,58 @@ def allene_api():
     return out
 
 
+# every number the text can contain, in every width the reader's grammar has to cope with: isotopes of 1-3 digits, charges
+# up to +-4, H counts up to 4, atom classes of 1-4 digits (style m on renumbered copies), closure numbers 1..99 (hub graphs),
+# CXSMILES atom positions of 1-3 digits (radicals late in long molecules, several per molecule)
+WIDE_NUMBERS = ['[238U]', '[235U+4]', 'C[125I]', 'C[131I]', '[Fe+3]', '[Ti+4]', '[O-2]', '[N-3]', '[Zr+4].[Cl-].[Cl-].[Cl-].[Cl-]',
+                '[99Tc]', '[Al+3]', '[P-3]', '[Pt+4]', '[Sn+4]', '[C-4]', '[Ce+4]', '[210Po]', '[18OH2]', '[Mn+2]', '[Cr+3]', '[S-2]',
+                '[3H]C([2H])([2H])[13CH2][15NH2]', '[NH4+].[BH4-]', '[SiH4]', '[PH4+]', 'C[14CH2][127I]', '[2H]O[3H]']
+
+
+def late_radicals(rng, quick):
+    """radical molecules whose radical atoms are written at positions of 1, 2 and 3 digits: H abstracted (through the API)
+    from 1-3 atoms of long chains and of corpus molecules; kept only when the radical is valence-valid"""
+    out = []
+    base = [('chain12', 'C' * 12), ('chain30', 'C' * 30), ('chain120', 'C' * 120), ('octylbenzene', 'CCCCCCCCc1ccccc1'),
+            ('dodecanol', 'OCCCCCCCCCCCC'), ('tempo-like', 'CC1(C)CCCC(C)(C)N1O'), ('PEG', 'OCCOCCOCCOCCOCCOCCO')]
+    mols = [(nm, molgen.parse(smi)) for nm, smi in base]
+    mols += [(nm, m) for nm, m in molgen.corpus(rng, 12 if quick else 150) if len(m) >= 14]
+    for nm, m in mols:
+        if m is None:
+            continue
+        # not from a stereo centre or an end of a labelled double bond: that would leave a label on a non-stereogenic atom
+        cand = [n for n, a in m._atoms.items() if a.implicit_hydrogens and a.atomic_number in (6, 7, 8) and a.stereo is None
+                and not any(b.stereo is not None or int(b) == 2 for b in m._bonds[n].values())]
+        if not cand:
+            continue
+        for k in (1, 2, 3):
+            c = m.copy()
+            picked = [cand[-1]] if k == 1 else rng.sample(cand, min(k, len(cand)))
+            ok = True
+            for n in picked:
+                a = c._atoms[n]
+                h = a.implicit_hydrogens - 1
+                a._is_radical = True
+                try:
+                    ok = ok and bool(c.check_implicit(n, h))
+                except Exception:  # noqa
+                    ok = False
+                a._implicit_hydrogens = h
+            if ok:
+                c.flush_cache()
+                out.append((f'late-radical:{nm}x{k}', c))
+    return out
+
+
+def wide_numbers():
+    out = []
+    for smi in WIDE_NUMBERS:
+        m = molgen.parse(smi)
+        if m is not None:
+            out.append(('wide:' + smi, m))
+    return out
+
+
 def stereo_extra():
     out = []
     for s in STEREO_EXTRA:
@@ -483,6 +535,8 @@ def molecules(ctx):
     out += stereo_extra()
     out += allene_api()
     out += radical_api()
+    out += wide_numbers()
+    out += late_radicals(rng, q)
     out += molgen.corpus(rng, 110 if q else 1200)
     for n in (3, 4, 5) if q else (3, 4, 5, 6):
         graphs = list(molgen.small_graphs(n))
@@ -514,9 +568,12 @@ def molecules(ctx):
     except Exception:  # noqa
         pass
     extra = []
-    for name, m in out[::3 if q else 2]:
+    for i, (name, m) in enumerate(out[::3 if q else 2]):
         try:
-            extra.append((name + '/renum', molgen.renumber(rng, m)[0]))
+            if i % 5 == 4 and len(m) < 2000:   # atom numbers of 3 and 4 digits (atom classes of style m)
+                extra.append((name + '/renum4', molgen.renumber(rng, m, lo=rng.choice([100, 1000]), hi=9999)[0]))
+            else:
+                extra.append((name + '/renum', molgen.renumber(rng, m)[0]))
         except Exception:  # noqa
             continue
     out += extra
@@ -608,6 +665,13 @@ def correspond(ctx):
         variants = [(mol, 'as-is')]
         if stereo:
             variants.append((strip_stereo(mol), 'stereo-stripped'))
+            if len(mol) <= 14 and any(a.stereo is not None for a in mol._atoms.values()):
+                try:   # stereo centres whose hydrogen is an explicit atom (four written neighbours, no implicit H)
+                    c = mol.copy()
+                    if c.explicify_hydrogens():
+                        variants.append((c, 'explicit-H'))
+                except Exception:  # noqa
+                    pass
             labelled = [(x, y) for x, y, b in mol.bonds() if b.stereo is not None]
             if len(labelled) >= 2:  # partially labelled polyenes: marks exist around a double bond without a label
                 for x, y in (labelled[0], labelled[-1]):
@@ -657,6 +721,11 @@ def correspond(ctx):
                 else:
                     ctx.dist('random-order-K-skipped(draws-not-attributable)')
                 # relational: real reader on the real text, judged under the written order
+                if text is not None and ' |^1:' in text:
+                    for w in {len(x) for x in text.split(' |^1:')[1].rstrip('|').split(',')}:
+                        ctx.dist(f'cx-radical-position-digits:{w}')
+                if text is not None and 'm' in spec and ':' in text:
+                    ctx.dist(f'atom-class-digits:{len(str(max(m._atoms)))}')
                 if text is not None:
                     ctx.count(('J', spec, tuple(wire.mol_to_ints(m)), tuple(draws)), nontrivial)
                     if judgeable(m):
@@ -1110,8 +1179,13 @@ def judge_connectivity_only(mol, text, order, check_radicals=True):
         # a radical flag of the original is written in the CXSMILES block and must come back (the converse is not judged:
         # for valence-invalid atoms the reader may guess additional radicals)
         for rn, n in back.items():
-            if mol._atoms[n].atomic_number != r._atoms[rn].atomic_number:
+            a, b = mol._atoms[n], r._atoms[rn]
+            if a.atomic_number != b.atomic_number:
                 diffs.append(f'element@{n}')
-            elif mol._atoms[n].is_radical and not r._atoms[rn].is_radical:
+            elif (a.isotope or None) != (b.isotope or None):
+                diffs.append(f'isotope@{n}')
+            elif a.charge != b.charge:
+                diffs.append(f'charge@{n}')
+            elif a.is_radical and not b.is_radical:
                 diffs.append(f'radical@{n}')
     return diffs
